@@ -2046,6 +2046,9 @@ func (w *W) opIllegal() string {
 	if h.M.K != model.KSub {
 		return ""
 	}
+	if w.Sep != "" && t.Chance(1, 4, "illegal-index-beyond-the-maximum") {
+		return w.opBeyondMax(h)
+	}
 	// find primitives below h and step through one
 	var prims [][]model.Seg
 	h.M.Walk(func(x *model.Node, s []model.Seg) {
@@ -2099,6 +2102,44 @@ func (w *W) opIllegal() string {
 	}
 	if after := fp.Fingerprint(root.C); after != before {
 		w.fail("frame", op, nil, "a failed %s%s changed the config", op, a)
+	}
+	return op
+}
+
+// opBeyondMax: a write with an explicit index beyond the maximum index, addressed through a dotted
+// name whose intermediate settings may be missing: the write is refused and nothing is left behind
+// (no half-built path, no padding nil turned into an object).
+func (w *W) opBeyondMax(h *Handle) string {
+	t := w.R.T
+	n := 1 + t.Choose(3, "beyond-max-segments")
+	parts := make([]string, n)
+	for i := range parts {
+		parts[i] = Names[t.Choose(len(Names), "beyond-max-name")]
+		if i > 0 && t.Chance(1, 4, "beyond-max-index-segment") {
+			parts[i] = strconv.Itoa(t.Choose(3, "beyond-max-i"))
+		}
+	}
+	name := strings.Join(parts, w.Sep)
+	idx := 1025 + t.Choose(3, "beyond-max-by")
+	root := w.rootOf(h)
+	before := fp.Fingerprint(root.C)
+	var err error
+	op := "SetString"
+	if t.Bool("beyond-max-setchild") {
+		op = "SetChild"
+		w.R.MustComplete(op, func() { err = h.C.SetChild(name, idx, ucfg.New(), w.Opts...) })
+	} else {
+		w.R.MustComplete(op, func() { err = h.C.SetString(name, idx, "zz", w.Opts...) })
+	}
+	w.R.Tracef("h%d.%s(%q,%d) [index beyond the maximum] = %v", h.ID, op, name, idx, err)
+	w.R.Fault("write with an index beyond the maximum index")
+	if err == nil {
+		w.fail("op-result", op, nil, "%s(%q, %d) with an index beyond the maximum index (1024) reported success", op, name, idx)
+		return op
+	}
+	w.checkErrTyped(err, op)
+	if after := fp.Fingerprint(root.C); after != before {
+		w.fail("frame", op, nil, "a refused %s(%q, %d) changed the config (intermediate settings of the path were left behind)", op, name, idx)
 	}
 	return op
 }
